@@ -53,7 +53,9 @@ class HttpClientRig:
     replaced for the life of the rig), and a scripted peer that answers the requests it sees on whichever socket the
     client currently uses"""
 
-    def __init__(self, secure=False):
+    def __init__(self, secure=False, make="scheme"):
+        """make: "scheme" - Client(hostname, port, scheme); "connector" - the application builds the tcp connector itself
+        and gives no scheme (the Client takes it from the connector's class)"""
         from hio.base import tyming
         from hio.core import http
         from hio.core.tcp import clienting
@@ -68,8 +70,13 @@ class HttpClientRig:
             self.saved.append((clienting.ClientTls, "wrap", real_wrap))
         self.tymist = tyming.Tymist(tyme=0.0)
         kw = dict(context=tcpadapt.ctx(False)) if secure else {}
-        self.cli = http.Client(hostname="127.0.0.1", port=8080, scheme="https" if secure else "http",
-                               tymth=self.tymist.tymen(), **kw)
+        if make == "connector":
+            cls = clienting.ClientTls if secure else clienting.Client
+            conn = cls(tymth=self.tymist.tymen(), host="127.0.0.1", port=8080, **kw)
+            self.cli = http.Client(connector=conn, tymth=self.tymist.tymen())
+        else:
+            self.cli = http.Client(hostname="127.0.0.1", port=8080, scheme="https" if secure else "http",
+                                   tymth=self.tymist.tymen(), **kw)
         self.cli.reopen()
         self.seen = []          # (host address the request went to, request line, headers dict) in the order the peer saw them
         self.parsed = {}        # id(fake socket) -> bytes already parsed
